@@ -169,3 +169,16 @@ _add('C17', 'Boolean attributes with non-canonical values; attribute order varie
 _add('C18', 'Type keyword in other ASCII cases; layer variants: the (min,max,value) triples under XHTML with other-case decoy attributes (API-built and parsed), html5lib, lxml, and on readonly / disabled / fieldset-disabled inputs.')
 _add('C19', 'Search texts spelled as escaped bare identifiers; whitespace kinds FF/TAB/CR/LF, VT, EM SPACE among the text leaves.')
 _add('C20', 'Patterns over wide, combining, astral and zero-width characters and TAB (a column is a code-point offset); DEBUG-invariance repeated with a default namespace, a prefix and custom selectors in force.')
+
+# ---- additions after wave 8 ----
+_add('C01', 'Layer D: every chain of 4 and 5 nested elements (with extra siblings on the spine) x 64 combinator triples for four-compound selectors, :has() with three-compound relative chains, their negation and :is(three compounds) k X, rooted and detached.')
+_add('C02', 'Rows in which every second <a> is stored as <A> (HTML tree edited through the API).')
+_add('C03', 'filter() over a bs4 ResultSet, a tuple and a reversed list.')
+_add('C04', 'filter() over ResultSet / list / reversed list / find_all(True) of all elements equals match() element by element, with :scope selectors.')
+_add('C05', 'Every law also with the list typed with comments and blanks around the comma (three spellings).')
+_add('C08', 'A call that trips the watchdog is narrowed down to one element so that the witness replays on its own.')
+_add('C09', 'The sweep also writes the six-digit escape followed by a blank.')
+_add('C12', 'Laws "custom alias = its definition inside :is()" for 4 aliases x 8 typed/untyped forms x 4 placements x 7 maps.')
+_add('C16', 'The probe includes an XHTML document binding the prefixes html: and svg: to other URIs (Beautiful Soup passes the document prefixes as namespaces=).')
+_add('C19', 'A document parsed by html.parser, lxml and html5lib holding script / style / template / ruby / textarea / title / noscript / CDATA / PI content, 34 selectors against the reference.')
+_add('C20', 'All words of <=2 lexemes as the definition of a custom selector used inside an outer pattern: the reported offset lies inside the text the context shows.')
